@@ -232,8 +232,10 @@ def _validator(ctx, rep):
             unparse = any(isinstance(v, str) and v != '!' and impl.parse_str(v) == '!' for v in rules.values())
             unknown = any(k not in ('foo', 'bar') for k in rules)
             exp = 1 if (missing or und or cyc or unknown or unparse) else 0
-            if want is not None and exp != want:
-                raise driver.DriverError('validator oracle wrong for %r' % (rules,))
+            if want is not None:
+                # hand-written expectation for this file: the oracle (its "unparseable" part consults the parser under
+                # test) must not drift with the library
+                exp = want
             # model
             m = driver.call([{'op': 'validator', 'rules': [[k, v if isinstance(v, str) else driver.enc(v)] for k, v in eff.items()],
                               'default': None, 'file_missing': missing,
